@@ -128,6 +128,17 @@ theorem gopher_search_literal (w qp : Str) (nv : Bool) (c : Conn) (sel q : Str)
     (h : requestList c.line = [sel, q]) : (parseRequest w qp nv .gopher c).search = some q := by
   simp [parseRequest, h]
 
+/-- **A link with a host but no port names the same port everywhere.**  The Gopher menu line
+    and the `gopher://` URL that HTTP, WAP, Gemini and Spartan listings show for such an entry
+    both carry this server's port (before repo commit a7609ce the URL said 70). -/
+theorem host_only_same_port (srv : ServerId) (e : Entry) (h : Str) (hh : e.host = some h) (hne : h.isEmpty = false)
+    (hp : e.port = none) (hu : startsUrl e.selector = false) (hu2 : isUrlSel e.selector = false) :
+    portOf srv e = toDec srv.port ∧ hostOf srv e = h ∧
+    linkUrl srv e = (quote (pyStrOpt e.type ++ e.selector)).map fun q =>
+      lit "gopher://" ++ h ++ [58] ++ toDec srv.port ++ [47] ++ q := by
+  refine ⟨by simp [portOf, hp], by simp [hostOf, hh], ?_⟩
+  simp [linkUrl, hu, Entry.isLocal, hh, hne, Entry.geturl, hu2, hp]
+
 /-! non-vacuity -/
 example : qsSearch (lit "searchrequest=a%20b%FF") = some (lit "a b" ++ [0xDCFF]) := by decide +kernel
 example : (walk false true { selector := [] } [{ selector := lit "/a", ea := [(lit "ABSTRACT", lit "x\ny")] }]).length = 3 := by
